@@ -92,9 +92,13 @@ class FileAdapter(ExternalStateAdapter):
             }
         }
 
-        f = open(os.path.join(self.path, str(state.instance_id) + ".json"), "w")
+        path = os.path.join(self.path, str(state.instance_id) + ".json")
+        # write to a temporary name and rename, so that a crash never leaves a half-written state file
+        tmp_path = path + ".tmp"
+        f = open(tmp_path, "w")
         f.write(jsonpickle.dumps(data))
         f.close()
+        os.replace(tmp_path, path)
 
 
     def _load_state(self) -> list[InstanceState]:
@@ -102,6 +106,8 @@ class FileAdapter(ExternalStateAdapter):
         instance_paths = os.listdir(self.path)
 
         for instance_uuid in instance_paths:
+            if not instance_uuid.endswith(".json"):
+                continue  # e.g. a temporary file left behind by an interrupted save
             instance = self._load_instance(instance_uuid.split(".")[0])
             if instance is not None:
                 instances.append(instance)
